@@ -58,6 +58,21 @@ CLAIMS.update({
          "method record first in its delivery, one record per permitted change/cancel/succeed/fail. " + MACH, "Coq proof (strip-commutation / non-interference over all histories) + model/implementation correspondence with logging off/on/verbose"),
 })
 
+CLAIMS.update({
+ "C17": ("proof", "7.17", "Coq: the model's run is a function of configuration, callbacks and API history (determinism by construction); construction ignores prior memory contents and the copy/move constructors are the identity, "
+         "relative to facts regenerated from clang's AST of /repo on every run (members without initialiser; members the hand-written CoreT copy/move constructors omit) - the obligations are provable exactly when those lists are empty; "
+         "instances are independent; a copy behaves like the original. Correspondence: scripts with copies at random points compared with the model, the copy-equals-original monitor, and every script re-run over six memory fill "
+         "patterns with the implementation's traces compared among themselves.", "Coq proof over facts regenerated from the source + model/implementation correspondence + fill-pattern differential runs"),
+ "C18": ("other", "7.18", "Coq: index safety - every container operation has a checked twin that fails on the first out-of-range index, proved equal to the model's operation and proved to succeed under the container's invariant "
+         "(task list, plan links and iterators, bit arrays, bit stream incl. cursor no-wrap, arrays, per-state report bits). Instrumented execution for what the model cannot express: ASan+UBSan builds of the correspondence scripts "
+         "(capacity-full plans, payload alignments 1/4/8/16, n = 1..255 in thorough), undefined-symbol scan of an object instantiating the whole API, operator new/delete and mallinfo2 counters.",
+         "Coq proof of index safety + sanitizer-instrumented runs + symbol / allocation-counter inspection"),
+ "C19": ("other", "7.19", "Coq: non-interference - for every history that uses none of plans / serialization / transition history and every two settings of those switches and of the log mode and logger, the runs agree on callbacks, "
+         "actions, results, active state, request and plan (features_irrelevant); each switch separately as well. Enumeration for what no model expresses: the compile matrix (256 switch masks x 4 standards x 2 compilers x activation x payload "
+         "x header variant: complete in thorough, one rotating slice per mask in quick, plus FFSM2_ENABLE_ALL), tools/join.py byte identity, neutral-scenario digests under switch masks, feature-crossed correspondence runs.",
+         "Coq proof of feature non-interference + complete enumeration of the compile matrix + byte comparison of the amalgamation"),
+})
+
 PENDING = {}
 
 def main():
